@@ -93,13 +93,33 @@ class C05(Property):
         return []
 
     def extra(self, ctx):
-        tier, runner, seed = ctx["tier"], ctx["runner"], ctx["seed"]
-        rng = random.Random(seed)
+        rng = random.Random(ctx["seed"])
+        findings, cov = self.judged_invocations(ctx, rng)
+        f2, c2 = self.dispatch_trace(ctx, rng)
+        findings += f2
+        cov.update(c2)
+        f2b, c2b = self.search_after_dispatch_break(ctx, rng, f2)
+        findings += f2b
+        cov.update(c2b)
+        f3, c3 = self.problem_strings(ctx, rng)
+        findings += f3
+        cov.update(c3)
+        f4, c4 = self.check_command(ctx, rng)
+        findings += f4
+        cov.update(c4)
+        self._cov = cov
+        return findings, cov
+
+    # ---- random invocations of both binaries on files of both formats: every printed answer judged ----
+    def judged_invocations(self, ctx, rng, tasks=None, errors=True, nfiles=None):
+        """tasks: restriction to some task kinds (used by C04); errors=False leaves out the malformed / informational invocations"""
+        tier, runner = ctx["tier"], ctx["runner"]
+        problems = [p for p in PROBLEMS if tasks is None or p.split("-")[0] in tasks]
         crust = os.path.join(common.REPO_TARGET, "release", "crustabri")
         wrap = os.path.join(common.REPO_TARGET, "release", "crustabri_iccma23")
         d = runner.dir
         jobs = []   # (kind, cmd, meta)
-        nfiles = 24 if tier == "quick" else 200
+        nfiles = nfiles or (24 if tier == "quick" else 200)
         files = []
         for i in range(nfiles):
             n, atts = gen.random_framework(rng, 6)
@@ -121,7 +141,7 @@ class C05(Property):
         per_file = 10 if tier == "quick" else 14
         for (path, fmt, labels, atts, n) in files:
             for _ in range(per_file):
-                prob = rng.choice(PROBLEMS)
+                prob = rng.choice(problems)
                 t, s = prob.split("-")
                 shown = prob if rng.random() < 0.5 else recase(rng, prob)
                 arg = rng.choice(labels) if t != "SE" else None
@@ -192,21 +212,24 @@ class C05(Property):
                         lab + ".x", lab + " y", "1" + lab, lab + "-1", "(" + lab + ")", lab + ","):
                 if bad not in alabels and bad.strip() not in alabels:
                     errs.append(["solve", "-f", apath, "-r", "apx", "-p", "DC-CO", "-a", bad])
+        if not errors:
+            errs = []
         for e in errs:
             cmd = [crust] + e
             if "--logging-level" not in e and e and e[0] == "solve":
                 cmd += ["--logging-level", "off"]
             jobs.append(("err", cmd, {}))
-        for e in (["-f", os.path.join(d, "nope.af"), "-p", "SE-GR"], ["-f", bad_file, "-p", "DC-CO", "-a", "1"], ["-f", good[0], "-p", "DC-CO"],
-                  ["-f", good[0], "-p", "ZZ-GR"], ["-p", "SE-GR"], ["-f", good[0], "-p", "DC-ST", "-a", "99"]):
-            jobs.append(("err", [wrap] + e, {}))
-        jobs.append(("info", [crust, "authors", "--logging-level", "off"], {"what": "authors"}))
-        jobs.append(("info", [wrap], {"what": "authors"}))
-        jobs.append(("info", [crust, "--help"], {"what": "help"}))
-        jobs.append(("info", [crust, "solve", "--help"], {"what": "help"}))
-        jobs.append(("info", [crust, "solve", "-h"], {"what": "help"}))
-        jobs.append(("problems", [crust, "problems", "--logging-level", "off"], {}))
-        jobs.append(("problems", [wrap, "--problems"], {}))
+        if errors:
+            for e in (["-f", os.path.join(d, "nope.af"), "-p", "SE-GR"], ["-f", bad_file, "-p", "DC-CO", "-a", "1"], ["-f", good[0], "-p", "DC-CO"],
+                      ["-f", good[0], "-p", "ZZ-GR"], ["-p", "SE-GR"], ["-f", good[0], "-p", "DC-ST", "-a", "99"]):
+                jobs.append(("err", [wrap] + e, {}))
+            jobs.append(("info", [crust, "authors", "--logging-level", "off"], {"what": "authors"}))
+            jobs.append(("info", [wrap], {"what": "authors"}))
+            jobs.append(("info", [crust, "--help"], {"what": "help"}))
+            jobs.append(("info", [crust, "solve", "--help"], {"what": "help"}))
+            jobs.append(("info", [crust, "solve", "-h"], {"what": "help"}))
+            jobs.append(("problems", [crust, "problems", "--logging-level", "off"], {}))
+            jobs.append(("problems", [wrap, "--problems"], {}))
 
         def run(job):
             kind, cmd, meta = job
@@ -335,19 +358,6 @@ class C05(Property):
                "cli_valid_invocations": len([j for j in jobs if j[0] == "ok"]), "cli_answers_judged": len(judged),
                "cli_error_invocations": len([j for j in jobs if j[0] == "err"]),
                "samples": [" ".join(j[1]) for j in jobs[:2]] + [" ".join(j[1]) for j in jobs if j[0] == "err"][:2]}
-        f2, c2 = self.dispatch_trace(ctx, rng)
-        findings += f2
-        cov.update(c2)
-        f2b, c2b = self.search_after_dispatch_break(ctx, rng, f2)
-        findings += f2b
-        cov.update(c2b)
-        f3, c3 = self.problem_strings(ctx, rng)
-        findings += f3
-        cov.update(c3)
-        f4, c4 = self.check_command(ctx, rng)
-        findings += f4
-        cov.update(c4)
-        self._cov = cov
         return findings, cov
 
     # ---- dispatch correspondence: the CLI run against a recording external solver = the composed Lean model ----
